@@ -7,7 +7,7 @@
    The REFERENCE tokenizer (AEHTMLTok) is run over the document bytes and gives the slot of every
    boundary.  For every boundary this module computes Agree (strict) and Compatible (confinement)
    between the real context and the reference slot, and the ROOT of a disagreement (the breaking
-   edge: class of the last agreeing boundary + the fragment that separated the two machines).
+   edge: class of the last boundary in step + the fragment that separated the two machines).
    An incompatible pair is only a CANDIDATE: it is sent to the confinement level, which decides.
    The implementation-shaped AELexer is run as well, only to report model drift (its predicted
    context differs from the real one).  Output: ctxout.ndjson, one line per record. *)
@@ -36,14 +36,19 @@ AgreeSeq(r, S, i, acc) ==
                 ELSE IF i = 1 THEN TRUE ELSE acc[i - 1]
        IN AgreeSeq(r, S, i + 1, Append(acc, a))
 
-\* start of the maximal disagreeing run that ends at boundary i (i is 1-based, boundary i-1)
-RECURSIVE RunStart(_, _)
-RunStart(A, i) == IF i > 1 /\ ~A[i - 1] THEN RunStart(A, i - 1) ELSE i
+(* ROOT CAUSE of what is observed at boundary i: the FIRST boundary j <= i at which strict agreement is
+   lost, named by the class of the boundary before it (the last product-state class in step) and the
+   fragment in between: the breaking edge.  Documents are shortest paths to product states, so an
+   earlier desynchronisation that had been fully repaired would not be on them; a later accidental
+   agreement of the context NAMES (e.g. lexer in a JS line comment, reference in JS code) does not
+   mean that the two machines are in step again. *)
+RECURSIVE FirstBad(_, _, _)
+FirstBad(A, j, i) == IF j > i THEN 0 ELSE IF ~A[j] THEN j ELSE FirstBad(A, j + 1, i)
 RootOf(r, S, A, i) ==
-  IF A[i] THEN [none |-> 1]
-  ELSE LET j == RunStart(A, i) IN
-       IF j = 1 THEN [ctx |-> "start", url |-> 0, slot |-> "start", kind |-> "", frag |-> <<>>]
-       ELSE [ctx |-> CtxName(r.ctx[j - 1]), url |-> r.url[j - 1], slot |-> S[j - 1][1], kind |-> S[j - 1][2], frag |-> r.frags[j - 1]]
+  LET j == FirstBad(A, 1, i) IN
+  IF j = 0 THEN [none |-> 1]
+  ELSE IF j = 1 THEN [ctx |-> "start", url |-> 0, slot |-> "start", kind |-> "", frag |-> <<>>]
+  ELSE [ctx |-> CtxName(r.ctx[j - 1]), url |-> r.url[j - 1], slot |-> S[j - 1][1], kind |-> S[j - 1][2], frag |-> r.frags[j - 1]]
 
 Cls(r) ==
   LET S == RefSlots(r.frags)
